@@ -1,8 +1,8 @@
 #!/venv/bin/python
-"""usage: tools/normsrc.py <patch|-> <relpath> <func-substring> : print the normalised source of matching functions (debug aid)"""
+"""usage: tools/normsrc.py <patch|-> <relpath> <func-substring> : print the normalised source of matching functions
+(as the checks see them: private sibling modules spliced in, all passes applied) - debug aid"""
 import sys, os, ast, subprocess, tempfile, shutil
 sys.path.insert(0, "/verif")
-from nanite_sa.normalize import normalize_module
 patch, rel, pat = sys.argv[1:4]
 t = tempfile.mkdtemp(prefix="ns.")
 try:
@@ -12,10 +12,17 @@ try:
         if f.endswith(".py"): shutil.copy("/repo/tests/" + f, t + "/tests/")
     if patch != "-":
         subprocess.run(["patch", "-s", "-p1", "-d", t], stdin=open(patch), check=True)
-    tree = ast.parse(open(os.path.join(t, rel)).read())
-    tree = normalize_module(tree)
-    for n in ast.walk(tree):
-        if isinstance(n, (ast.FunctionDef, ast.ClassDef)) and pat in n.name:
-            print(ast.unparse(n)); print("-" * 40)
+    os.environ["NANITE_REPO"] = t
+    from nanite_sa.loader import Repo
+    repo = Repo()
+    for m in repo.modules.values():
+        if m.relpath != rel:
+            continue
+        for n in ast.walk(m.tree):
+            if isinstance(n, (ast.FunctionDef, ast.ClassDef)) and pat in n.name:
+                doc = ast.get_docstring(n)
+                if doc and isinstance(n.body[0], ast.Expr):
+                    n.body = n.body[1:] or [ast.Pass()]
+                print(ast.unparse(n)); print("-" * 40)
 finally:
     shutil.rmtree(t)
